@@ -30,6 +30,15 @@ def logicalAnd (self : Operands) (args : List Operands) : Operands :=
   let ops := args.foldl implAnd self
   if !(ops.all (fun g => !g.isEmpty)) then [[]] else ops
 
+/-- `_impl_and` with its object-identity shortcut made explicit: the flag says "the operand *is* the
+accumulated tuple" (`a is b`), in which case `a` is returned instead of `a + a`. -/
+def implAndId (a : Operands) (b : Bool × Operands) : Operands := if b.1 then a else a ++ b.2
+
+/-- `Predicate.logical_and(self, *args)` with identity flags. -/
+def logicalAndId (self : Operands) (args : List (Bool × Operands)) : Operands :=
+  let ops := args.foldl implAndId self
+  if !(ops.all (fun g => !g.isEmpty)) then [[]] else ops
+
 /-- `Predicate.logical_or(self, *args)`. -/
 def logicalOr (self : Operands) (args : List Operands) : Operands :=
   args.foldl implOr self
@@ -51,5 +60,35 @@ def Leaf.render : Leaf → String
   | .neg k => s!"!{k}"
 def render (p : Operands) : String :=
   "[" ++ ",".intercalate (p.map fun g => "[" ++ ",".intercalate (g.map Leaf.render) ++ "]") ++ "]"
+
+end Pred
+
+/-! ### rewriting visitors (`queries/visitors.py`: `PredicateVisitor._visit_*` + `SimplePredicateVisitor.apply_*`)
+A visitor may return a replacement predicate for a leaf (`none` = keep). -/
+namespace Pred
+
+/-- `leaf.visit(visitor, flags)`: a positive leaf is offered to the visitor; for `LogicalNot` the
+operand is visited and `apply_logical_not` rebuilds `NOT original` whenever the visit produced
+something (the replacement of an operand under NOT is not used). -/
+def visitLeaf (f : Nat → Option Operands) : Leaf → Option Operands
+  | .pos k => f k
+  | .neg k => match f k with
+    | none => none
+    | some _ => some (logicalNot [[.pos k]])
+
+/-- `_visit_logical_or` + `apply_logical_or`. -/
+def visitOr (f : Nat → Option Operands) (g : List Leaf) : Option Operands :=
+  let rs := g.map (visitLeaf f)
+  if rs.all Option.isNone then none
+  else some (logicalOr (fromBool false) (List.zipWith (fun o r => r.getD [[o]]) g rs))
+
+/-- `_visit_logical_and` + `apply_logical_and`. -/
+def visitAnd (f : Nat → Option Operands) (p : Operands) : Option Operands :=
+  let rs := p.map (visitOr f)
+  if rs.all Option.isNone then none
+  else some (logicalAnd (fromBool true) (List.zipWith (fun o r => r.getD [o]) p rs))
+
+/-- `predicate.visit(visitor) or predicate`. -/
+def rewrite (f : Nat → Option Operands) (p : Operands) : Operands := (visitAnd f p).getD p
 
 end Pred
